@@ -268,7 +268,7 @@ def record(ledger: Ledger, m: Minted) -> None:
 # ---------------------------------------------------------------------------
 
 ENTRIES_FOR = {
-    "compact": ["deserialize_compact", "extract+validate", "7797.deserialize_compact", "jwt.decode"],
+    "compact": ["deserialize_compact", "extract+validate", "extract-interleaved", "7797.deserialize_compact", "jwt.decode"],
     "c7797": ["7797.deserialize_compact"],
     "flat": ["deserialize_json", "7797.deserialize_json"],
     "general": ["deserialize_json", "7797.deserialize_json"],
@@ -277,10 +277,20 @@ ENTRIES_FOR = {
 
 
 COMPANION = None      # a valid compact token the 'extract-interleaved' entry parses between extract and validate
+ANNOTATE = True       # after every accepted delivery the application edits the header objects it got back
+_DECOY = None
+
+
+def decoy_token() -> str:
+    """a valid compact JWS of somebody else (parsed, never verified, between the two steps of the two-step API)"""
+    global _DECOY
+    if _DECOY is None:
+        _DECOY = rjws.make_compact(rjws.compact_json({"alg": "HS256", "kid": "decoy"}), b"decoy payload", "HS256", RKey("oct", k=b"d" * 32))
+    return _DECOY
 
 
 class Result:
-    __slots__ = ("accepted", "exc", "payload", "protected", "unprotected", "headers", "entry", "obj")
+    __slots__ = ("accepted", "exc", "payload", "protected", "unprotected", "headers", "entry", "obj", "merged")
 
     def __init__(self, entry):
         self.entry = entry
@@ -291,6 +301,7 @@ class Result:
         self.unprotected = []
         self.headers = None
         self.obj = None
+        self.merged = None
 
 
 def deliver(entry: str, ser, keyarg, detached=None, algorithms=None, registry=None) -> Result:
@@ -319,8 +330,7 @@ def deliver(entry: str, ser, keyarg, detached=None, algorithms=None, registry=No
             elif entry == "extract-interleaved":
                 # the two-step API with another (valid) token parsed in between: each object owns its segments
                 obj = jws.extract_compact(ser.encode("utf-8") if isinstance(ser, str) else ser)
-                if COMPANION is not None:
-                    jws.extract_compact(COMPANION.encode("utf-8"))
+                jws.extract_compact((COMPANION or decoy_token()).encode("utf-8"))
                 ok = jws.validate_compact(obj, keyarg, **kw)
                 if ok is not True:
                     r.exc = ("validate_compact->%r" % (ok,))
@@ -349,11 +359,23 @@ def deliver(entry: str, ser, keyarg, detached=None, algorithms=None, registry=No
     r.obj = obj
     r.payload = obj.payload
     if hasattr(obj, "members"):
-        r.protected = [m.protected for m in obj.members]
-        r.unprotected = [m.header for m in obj.members]
+        r.protected = [copy.deepcopy(m.protected) for m in obj.members]
+        r.unprotected = [copy.deepcopy(m.header) for m in obj.members]
     else:
-        r.protected = [obj.protected]
+        r.protected = [copy.deepcopy(obj.protected)]
         r.unprotected = [None]
+    try:
+        r.merged = [m.headers() for m in obj.members] if hasattr(obj, "members") else None
+    except Exception:
+        r.merged = None
+    if ANNOTATE:
+        # the returned object is the application's: it strips and stamps header members as it likes (the verdict above was
+        # copied first); nothing of that may reach a later call
+        for hp in ([m.protected for m in obj.members] + [m.header for m in obj.members]) if hasattr(obj, "members") else [obj.protected]:
+            if isinstance(hp, dict):
+                hp.pop("b64", None)
+                hp.pop("crit", None)
+                hp["annotated-by"] = "application"
     return r
 
 
@@ -400,11 +422,7 @@ def judge_accept(res: Result, ser, detached, conf: KeyConf, ledger: Ledger | Non
             elif (got or None) != (want or None):
                 out.append(("header-mismatch", "protected header returned for signature %d is not the signed one" % i))
     # ... also in the merged view the object hands out: an unsigned member must not stand in for a signed one
-    try:
-        members = res.obj.members if hasattr(res.obj, "members") else None
-        merged = [m.headers() for m in members] if members is not None else None
-    except Exception:
-        merged = None
+    merged = getattr(res, "merged", None)
     if merged is not None and len(merged) == len(v.sigs):
         for i, (mg, info) in enumerate(zip(merged, v.sigs)):
             for name, val in (info.protected or {}).items():
